@@ -369,7 +369,8 @@ def decorators_known(eng: Engine, ck: Check, rule: str, funcs: list[FuncInfo], r
                 continue
             n += 1
             ok = nm in KNOWN_DECORATORS or nm in ('functools.wraps', 'wraps') or _transparent_decorator(eng, nm, factory=isinstance(d, ast.Call)) or \
-                (nm.split('.')[-1] in ('lru_cache', 'cache') and f.cls is None and f.outer is None and not f.is_async and not (f.params and f.params[0] in ('self', 'cls')))
+                (nm.split('.')[-1] in ('lru_cache', 'cache') and f.outer is None and not f.is_async and not (f.params and f.params[0] in ('self', 'cls')) and
+                 (f.cls is None or any(unparse(d2) == 'staticmethod' for d2 in f.node.decorator_list)))     # a static helper keyed on its arguments pins no instance
             ck.ob(rule, f, d, f'{f.qualname} carries only decorators whose effect the rules know ({relies})', ok,
                   f'`@{unparse(d)[:50]}`: callers of {f.name} run the wrapper this returns, not the body that the rules analysed (e.g. Connection.set_state assigns the state before '
                   'its first suspension point -- a wrapper that takes a lock first suspends before it)', construct=f'{f.qualname} decorator {nm}')
